@@ -450,7 +450,13 @@ class World:
             kw["trip_on"] = {KL[k] for k in br["trip_on"]}
         if br.get("class_thresholds"):
             kw["class_thresholds"] = {KL[k]: v for k, v in br["class_thresholds"].items()}
-        return SpyBreaker(**kw)
+        b = SpyBreaker(**kw)
+        # the caller mutates its own containers afterwards; the breaker must not notice
+        for k in list(kw.get("class_thresholds") or ()):
+            kw["class_thresholds"][k] = 1
+        if kw.get("trip_on") is not None:
+            kw["trip_on"].clear()
+        return b
 
     # -- stubs ---------------------------------------------------------------------------
     def classifier(self, exc):
